@@ -9,7 +9,7 @@ from ..pools import pick
 
 ID = "C04"
 LEVEL = "exploration"
-RUNS = {"quick": 3000, "thorough": 150000}
+RUNS = {"quick": 6000, "thorough": 150000}
 REQUIRED_FAULTS = ["F9.restart_path", "F9.restart_handle", "F9.restart_loads"]
 MACHINES = ["M-TI", "M-DI"]
 
